@@ -233,6 +233,10 @@ def run(prop, tier, seed, replay=None):
     if prop == 'C10' and not replay:
         from checks import multilang
         multilang.rotation_phase(c, tier)
+    import collections
+    hist = collections.Counter(s for r in ok for s in set(r['doc']))
+    c.extra['documents_containing_symbol'] = dict(sorted(hist.items(), key=lambda kv: -kv[1]))
+    c.extra['focus_symbols_never_generated'] = sorted(s for s in conf['focus'] if hist[s] == 0)
     c.known_seen = sorted(set(c.known_seen))
     for r in ok[:3] + ok[-3:]:
         c.sample({'doc': r['doc'], 'source': chars.dec(r['src']), 'plain': chars.dec(r['plain']), 'map': r['map'], 'verdict': verdicts[r['id']][key]})
